@@ -38,6 +38,20 @@ Proof.
   intros env ops rc s W Hc s' log E. generalize (si_history_steps_R env ops rc s W Hc). rewrite E. intros (_ & _ & H). exact H.
 Qed.
 
+(** fixed-output types, any accepted non-ramped ratio changes (and set_chunk_size): every call consumes exactly
+    input_frames_next() and produces exactly chunk_size = output_frames_next() frames *)
+Theorem C04_fast_out_steps_counts_R : forall d blen ops (s : @astate CR SR (@FastFixedOut CR)), fo_wfe blen s ->
+  forall s' log, fo_run_ops d s ops = Ok (s', log) -> Forall ocall_ok log.
+Proof.
+  intros d blen ops s W s' log E. generalize (fo_history_steps_R d blen ops s W). rewrite E. intros (_ & _ & H). exact H.
+Qed.
+Theorem C04_sinc_out_steps_counts_R : forall env blen ops (s : @astate CR SR (@SincFixedOut CR)), so_wfe env blen s ->
+  (forall n, In (U2Chunk n) ops -> (0 <= n)%Z) ->
+  forall s' log, so_run_ops env s ops = Ok (s', log) -> Forall ucall_ok log.
+Proof.
+  intros env blen ops s W Hn s' log E. generalize (so_history_steps_R env blen ops s W Hn). rewrite E. intros (_ & _ & H). exact H.
+Qed.
+
 (** FastFixedOut: consumes exactly input_frames_next(), produces exactly output_frames_next(). *)
 Theorem C04_fast_out_counts_R : forall d blen (s : @astate CR SR (@FastFixedOut CR)) wi wo m,
   fo_wf blen s -> a_precheck (@fo_arch CR SR d) s wi wo m = Ok tt ->
@@ -123,3 +137,5 @@ Print Assumptions C04_fft_out_counts_R.
 Print Assumptions C04_fft_inout_counts.
 Print Assumptions C04_fast_in_steps_counts_R.
 Print Assumptions C04_sinc_in_steps_counts_R.
+Print Assumptions C04_fast_out_steps_counts_R.
+Print Assumptions C04_sinc_out_steps_counts_R.
